@@ -170,4 +170,14 @@ CHECKS = {
         "assumptions": ["a node processes one event at a time (its consensus loop is single-threaded in production too); concurrency inside a node is the business of the schedsim checks",
                         "sync RPCs of one processing step see a frozen network (the remote state does not change during the step)", "reference models: DESIGN Appendix A"],
     },
+    "C13": {
+        "profile": "chainsim", "pkg": "chain", "test": "TestC13", "level": "exploration", "env": {"VERIF_PROP": "C13"},
+        "quick": {"workers": 8, "checks": 150}, "thorough": {"workers": 14, "checks": 6000},
+        "timeout": {"quick": "25m", "thorough": "6h"}, "shrinktime": "90s",
+        "rule": "chainsim + simfs: per run a simulated network of 2-4 whole nodes (3-6 validators, drawn weights/thresholds/validator changes, gossip faults, up to 3 partitions with heal) produces the stream of chain operations one of its nodes performs (add block on tip / remove tip block, incl. finality-advancing blocks and synthetic remove+re-add of the tip); a victim node and a twin outside the network apply that stream through processValidated/deleteBlock. For a third of the operations the victim's disk is armed to die at a drawn file-system call (1-5, sometimes 6-20) counted from the start of the operation - torn write (0/1/7/64 bytes or whole), then power loss (un-synced data dropped) or process kill (kept), or an injected I/O error (pebble exits) - the node is restarted (recovery itself crashed again in a fifth of the cases) and retried up to 3 times. Oracles: restart succeeds; the blockchain DB found equals the twin's before-image or after-image key for key; reported tip/BFT heights/finalized height and the application's state entries match that image; after completion DB and tip equal the twin's",
+        "real": ["pkg/consensus (executer processValidated/deleteBlock/verify, abi caller)", "pkg/consensus/liskbft", "pkg/blockchain (chain, data access, cache rebuild at start)", "pkg/framework ABI handler (Init roll-back, Commit, Revert) + pkg/statemachine", "pkg/db, diffdb, batchdb, trie/smt", "pebble (WAL, memtable flush, manifest, recovery) on the simulated disk", "the producing network: as in the other chainsim checks"],
+        "stub": ["pkg/p2p (stub)", "pkg/engine wiring (harness wires the same objects and calls ABI Init with the engine tip as engine.Start does)", "application module: simmod", "ABI transport: in-process loopback through the labi codecs", "clock", "disk: pebble strict MemFS behind simfs (descriptors of a dead generation are released, its goroutines frozen); pebble background compactions off"],
+        "distinct_measure": "FNV-64 of (drawn configuration, final tips / BFT heights / finalized heights of all nodes)",
+        "assumptions": ["durability model = pebble's strict MemFS: data is durable once the file was synced and its directory entry synced; a torn write leaves a prefix", "the twin (same code, no faults) defines the before/after images: a defect that corrupts both the same way without a crash is other checks' business (C02, C04, C05)", "map iteration order inside diffdb's cache is canonicalised in the overlay so that two nodes produce byte-identical diffs"],
+    },
 }
